@@ -19,10 +19,19 @@ spark = (SparkSession.builder.master("local[1]").config("spark.ui.enabled", "fal
          .config("spark.sql.shuffle.partitions", "1").getOrCreate())
 spark.sparkContext.setLogLevel("ERROR")
 
-SEED = 20261001          # the check's default VERIF_SEED: the quick tier's cases and the first 600 chains of the thorough tier are recorded
-cases = c02_gen.gen_cases(random.Random(SEED), "thorough", n_chains=600)
+# the check draws its programs from c02_gen.PROGRAM_SEED whatever VERIF_SEED is: the quick tier's cases, the thorough tier's
+# fixed families and its first 600 random chains are recorded
+cases = c02_gen.gen_cases(random.Random(c02_gen.PROGRAM_SEED), "thorough", n_chains=600)
 
-out = open("/verif/oracle/c02_pyspark.jsonl", "w")
+PATH = "/verif/oracle/c02_pyspark.jsonl"
+have = set()
+if os.path.exists(PATH) and "--all" not in sys.argv:       # incremental: only programs that are not recorded yet
+    for line in open(PATH):
+        c = json.loads(line)["case"]
+        have.add(cc.key({x: c[x] for x in ("left", "steps", "fin", "data")}))
+out = open(PATH, "a" if have else "w")
+cases = [c for c in cases if cc.key({x: c[x] for x in ("left", "steps", "fin", "data")}) not in have]
+print(len(cases), "programs to record,", len(have), "already recorded", flush=True)
 n = n_err = 0
 for case in cases:
     b = cc.Builder(spark, F, case["data"])
